@@ -89,7 +89,7 @@ type hist struct {
 
 	c3      *c03state
 	slack   time.Duration // added to every time bound when call latencies are injected
-	scope   string // cache scope of the session performing the current operation
+	scope   string        // cache scope of the session performing the current operation
 	msMark  int
 	kmsMark int
 	failed  bool
@@ -615,4 +615,3 @@ func (h *hist) isPayloadKey(hash [32]byte, aeadFrom int) bool {
 	}
 	return false
 }
-
